@@ -365,7 +365,7 @@ def main():
         if not thorough:
             fx = [s for s in fx]
         scen += [(label, p, a) for p, a in fx]
-        scen += [(label, p, a) for p, a in gen_scenarios(label, rng, 40 if thorough else 2)]
+        scen += [(label, p, a) for p, a in gen_scenarios(label, rng, 90 if thorough else 2)]
     scratch = Scratch('klepto-c13')
     results = []
     try:
